@@ -32,9 +32,13 @@ func c03Value(tag string) (val interface{}, ok bool, ref interface{}) {
 func VF_C03_Document() {
 	d := vfNewPlainDoc()
 	_, e1 := d.PutToObject("o", map[string]interface{}{"x": "ox", "y": map[string]interface{}{"z": map[string]interface{}{"w": "deep"}}})
-	_, e2 := d.PutToObject("arr", []interface{}{"a0", "a1"})
+	_, e2 := d.PutToObject("arr", []interface{}{"a0", "dead", "a1"})
 	_, e3 := d.PutToObject("p", "pv")
 	vf.Assert(e1 == nil && e2 == nil && e3 == nil, "C03 valid puts succeed")
+	// a deleted element between the two live ones (tombstone inside every range)
+	arr0, _ := d.GetFromObject("arr")
+	_, e4 := arr0.DeleteInArray(1)
+	vf.Assert(e4 == nil, "C03 valid array delete succeeds")
 	ref := map[string]interface{}{"o": map[string]interface{}{"x": "ox", "y": map[string]interface{}{"z": map[string]interface{}{"w": "deep"}}}, "arr": []interface{}{"a0", "a1"}, "p": "pv"}
 	vf.Assert(jsonDeepEq(d.GetValue(), ref), "C03 value matches the reference after the setup")
 	// a child document that gets deleted: calls on it must be refused afterwards
@@ -101,6 +105,18 @@ func VF_C03_Document() {
 			case 3: // UpdateManyInArray
 				pos := vf.Choice("pos", 4) - 1 // -1..2
 				val, vok, rv := c03Value("val")
+				if vf.Choice("many", 2) == 1 { // a range of two
+					_, e := arrDoc.UpdateManyInArray(pos, val, "second")
+					err = toErr(e)
+					valid = pos >= 0 && pos+2 <= len(arr) && vok
+					if valid {
+						na := append([]interface{}{}, arr...)
+						na[pos], na[pos+1] = rv, "second"
+						ref["arr"] = na
+						mutating = true
+					}
+					break
+				}
 				_, e := arrDoc.UpdateManyInArray(pos, val)
 				err = toErr(e)
 				valid = pos >= 0 && pos < len(arr) && vok
